@@ -425,6 +425,69 @@ func ExecuteC05(t *testing.T, plan *Plan) *RunResult {
 			res.Probes["concurrent-different-charts"] += n
 		}
 	}
+	// (i) client-only installs ("helm template") with DIFFERENT --api-versions running at the same time: what
+	// .Capabilities.APIVersions answers belongs to each render alone
+	if rs.G > 0 && base.Err == "" {
+		tmpl := "apiVersion: v1\nkind: ConfigMap\nmetadata:\n  name: c05-caps\ndata:\n{{- range $i := until 6 }}\n  has{{ $i }}: {{ $.Capabilities.APIVersions.Has (printf \"verif.example/c05v%d\" $i) | quote }}\n{{- end }}\n  n: {{ len .Capabilities.APIVersions | quote }}\n"
+		one := func(i int) renderOut {
+			sp := *spec.cloneSpec()
+			sp.RawFiles["templates/caps.yaml"] = tmpl
+			cfg := &action.Configuration{}
+			in := action.NewInstall(cfg)
+			in.DryRun, in.DryRunOption, in.ClientOnly, in.Replace = true, "true", true, true
+			in.ReleaseName, in.Namespace = "rel", "ns1"
+			in.APIVersions = chartutil.VersionSet{fmt.Sprintf("verif.example/c05v%d", i%6), fmt.Sprintf("verif.example/extra%d", i)}
+			var out renderOut
+			func() {
+				defer func() {
+					if r := recover(); r != nil {
+						out.Err = fmt.Sprintf("panic: %v", r)
+					}
+				}()
+				rel, err := in.Run(BuildChart(&sp), deepCopyMap(vals))
+				if err != nil {
+					out.Err = err.Error()
+				}
+				if rel != nil {
+					out.Manifest = rel.Manifest
+				}
+			}()
+			return out
+		}
+		n := 2 + rs.G
+		refs := make([]renderOut, n)
+		for i := range refs {
+			refs[i] = one(i)
+		}
+		outs := make([]renderOut, n)
+		var wg sync.WaitGroup
+		start := make(chan struct{})
+		for i := 0; i < n; i++ {
+			wg.Add(1)
+			go func(i int) {
+				defer wg.Done()
+				<-start
+				for rep := 0; rep < 3; rep++ {
+					outs[i] = one(i)
+					if outs[i].key() != refs[i].key() {
+						return
+					}
+					runtime.Gosched()
+				}
+			}(i)
+		}
+		close(start)
+		wg.Wait()
+		res.Checks++
+		for i := 0; i < n; i++ {
+			nRenders += 3
+			if outs[i].key() != refs[i].key() {
+				violate("identical-output", "concurrent-client-only-installs", fmt.Sprintf("client-only install %d (api-versions verif.example/c05v%d) run concurrently with others differs from its own sequential run: %q vs %q", i, i%6, trunc(outs[i].Manifest+outs[i].Err, 300), trunc(refs[i].Manifest+refs[i].Err, 300)))
+				break
+			}
+		}
+		res.Probes["concurrent-client-only-installs"] += n
+	}
 	// (g) render with a cluster connection (what a real install/upgrade or --dry-run=server does): the engine gets a
 	// REST config; the simulated API server is empty, so lookup finds nothing and the output equals the client-only one,
 	// and DNS stays disabled unless enabled
